@@ -386,9 +386,109 @@ def rule_k(R, ctx, rid="C20.k"):
              "the cut is also conditioned on %s" % [l.desc for l in after] if ok else "the cut is not under !adjacent()", cs.loc())
 
 
+def rule_l(R, ctx, rid="C20.l"):
+    from ylib.formula import Formulas, truth_check, fshow, atoms_of, f_or
+    Y = ctx.yrs
+    R.rule(rid, "R-GUARD decision table of join_linked_range (which quotations a newly integrated item joins): a link L of the LEFT "
+                "neighbour is taken iff the right neighbour carries L too, or L is a weak link whose END boundary association is the "
+                "tested one (open right edge) — whatever other links the right neighbour carries; a link L of the RIGHT neighbour is "
+                "taken iff the left neighbour does not carry it, L is a weak link whose START association is the tested one, and its "
+                "start id is the last id of the item's left neighbour — truth tables over the union of the path formulas of the "
+                "insertions into the common set, per loop")
+    fn = Y.fn("yrs::types::weak::join_linked_range")
+    v = FnView(fn)
+    fm = Formulas(fn, simp_deep)
+
+    def side(t):
+        for x in walk(t):
+            if isinstance(x, tuple) and x:
+                if x[0] == "field" and x[1].endswith("Item.left"):
+                    return "L"
+                if x[0] == "field" and x[1].endswith("Item.right"):
+                    return "R"
+                if x[0] in ("local", "param") and len(x) > 2 and x[2] in ("left", "right"):
+                    return "L" if x[2] == "left" else "R"
+        return None
+
+    def classify(k, t):
+        if not isinstance(t, tuple):
+            return None
+        t = simp_deep(t)
+        if t[0] == "call":
+            nm = F.strip_generics(t[1])
+            if nm.endswith("HashMap::get") and k.endswith(" is Some") and side(t):
+                return side(t) + "_SOME"
+            if nm.endswith("Iterator>::next") or nm.endswith("Iterator::next"):
+                if k.endswith(" is Some") and side(t):
+                    return side(t) + "_NEXT"
+            if nm.endswith("HashSet::contains") and side(t[2][0]):
+                return side(t[2][0]) + "_HAS"
+            if re.search(r"Option::(is_some_and|map_or)$", nm) and side(t[2][0]):
+                clo = [a for a in (simp_deep(y) for y in t[2]) if isinstance(a, tuple) and a and a[0] == "agg" and "{closure" in str(a[1])]
+                cf = Y.fns.get(clo[0][1]) if clo else None
+                if cf is not None and cf.calls_to("re:HashSet::contains$") and \
+                        (nm.endswith("is_some_and") or simp_deep(t[2][1]) [:2] == ("const", 0)):
+                    return side(t[2][0]) + "_IN"
+            if re.search(r"PartialEq.*::eq$", nm):
+                if term_has_field(t, "LinkSource.quote_end") and term_has_field(t, "StickyIndex.assoc"):
+                    return "END_ASSOC"
+                if term_has_field(t, "LinkSource.quote_start") and term_has_field(t, "StickyIndex.assoc"):
+                    return "START_ASSOC"
+                if term_has_field(t, "LinkSource.quote_start") and term_has_call(t, "yrs::sticky_index::StickyIndex::id"):
+                    return "START_IS_PREV"
+        if t[0] == "field" and t[1].endswith("Branch.type_ref") and k.endswith(" is WeakLink"):
+            return "WEAK"
+        return None
+
+    groups = {"L": [], "R": []}
+    for c in fn.calls_to("re:HashSet::insert$"):
+        recv = simp_deep(v.arg(c, 0))
+        elem = simp_deep(v.arg(c, 1))
+        if recv[0] == "call" and recv[1].endswith("HashSet::new") and side(elem):
+            groups[side(elem)].append(c)
+    R.floor(rid, "insertions of a left link into the common set", len(groups["L"]), 1)
+    R.floor(rid, "insertions of a right link into the common set", len(groups["R"]), 1)
+
+    def req_left(e):
+        if "R_IN" not in e and ("R_SOME" not in e or "R_HAS" not in e):
+            return None
+        need = ("L_SOME", "L_NEXT", "WEAK", "END_ASSOC")
+        if any(n not in e for n in need):
+            return None
+        in_right = e["R_IN"] if "R_IN" in e else (e["R_SOME"] and e["R_HAS"])
+        return e["L_SOME"] and e["L_NEXT"] and (in_right or (e["WEAK"] and e["END_ASSOC"]))
+
+    def req_right(e):
+        if "L_IN" not in e and "L_HAS" not in e:
+            return None
+        need = ("L_SOME", "R_SOME", "R_NEXT", "WEAK", "START_ASSOC", "START_IS_PREV")
+        if any(n not in e for n in need):
+            return None
+        if e["L_SOME"] and e.get("L_NEXT"):
+            return None     # the first loop is still running
+        in_left = e["L_IN"] if "L_IN" in e else (e["L_SOME"] and e["L_HAS"])
+        if "L_IN" in e and e["L_IN"] and not e["L_SOME"]:
+            return None     # inconsistent: membership without a set
+        return e["R_SOME"] and e["R_NEXT"] and not in_left and e["WEAK"] and e["START_ASSOC"] and e["START_IS_PREV"]
+    for sd, req in (("L", req_left), ("R", req_right)):
+        if not groups[sd]:
+            continue
+        f = f_or(*[fm.reach(c.bb) for c in groups[sd]])
+        ats = atoms_of(f)
+        names = {classify(k, t) for k, t in ats.items()}
+        free = [k for k, t in ats.items() if classify(k, t) is None]
+        ok, cex, keys = truth_check(f, classify, req, max_atoms=12)
+        probe = req({n: (n != "L_NEXT" or sd == "L") for n in ("L_SOME", "L_NEXT", "R_SOME", "R_NEXT", "R_HAS", "L_HAS", "R_IN", "L_IN", "WEAK", "END_ASSOC", "START_ASSOC", "START_IS_PREV") if n in {x for x in names if x}})
+        R.ob(rid, fn, "table:" + ("left-links" if sd == "L" else "right-links"), ok and not free and probe is not None,
+             "taken exactly under the table (%d atoms)" % len(keys) if ok and not free and probe is not None else
+             "the decision differs: %s" % (cex if not free and probe is not None else "atoms %s, unrecognised %s" % (sorted(n for n in names if n), free)),
+             groups[sd][0].loc())
+
+
 def check(ctx, R):
     from . import wire_rules
     R.run("C20.k", rule_k, ctx)
+    R.run("C20.l", rule_l, ctx)
     R.run("C20.a", rule_a, ctx)
     R.run("C20.b", rule_b, ctx)
     R.run("C20.c", rule_c, ctx)
